@@ -22,6 +22,10 @@ def okPc : FPc → Bool
 def livePc : FPc → Bool
   | .inEmit | .cb _ => true
   | _ => false
+/-- pcs after the inner terminal is over (P was closed, or never opened) -/
+def postPc : FPc → Bool
+  | .closed _ | .sendFin _ | .closeCh | .done => true
+  | _ => false
 def finishedPc : FPc → Bool
   | .closeCh | .done => true
   | _ => false
@@ -46,16 +50,18 @@ structure Basic (cfg : Cfg) (s : St) : Prop where
   dropped_pc : s.dropped = true → livePc s.f = false ∧ okPc s.f = false ∧ s.fin ≠ some .marker
   marker_cursor : (okPc s.f = true ∨ s.fin = some .marker) → s.cursor = cfg.n
   not_yet : s.f = .opening → s.pOpened = false ∧ s.pClosed = false
+  closes_eq : s.closes = if s.pClosed then 1 else 0
+  post : postPc s.f = true → s.pOpened = s.pClosed
 
 theorem basic_init (cfg : Cfg) : Basic cfg (init cfg) := by
-  constructor <;> simp [init, St.ctx1, St.chLen, pOpenPc, okPc, livePc, finishedPc]
+  constructor <;> simp [init, St.ctx1, St.chLen, pOpenPc, okPc, livePc, finishedPc, postPc]
 
 set_option maxHeartbeats 4000000 in
 theorem basic_step {cfg : Cfg} {s s' : St} {l : Label} (h : Basic cfg s) (hs : step cfg s l = some s') :
     Basic cfg s' := by
-  obtain ⟨h1, h2, h3, h4, h5, h6, h7, h8, h9, h10, h10', h10'', h11, h12, h13, h14, h15, h16⟩ := h
+  obtain ⟨h1, h2, h3, h4, h5, h6, h7, h8, h9, h10, h10', h10'', h11, h12, h13, h14, h15, h16, h17, h18⟩ := h
   step_cases hs <;>
-    (constructor <;> (try (simp_all [St.ctx1, St.chLen, pOpenPc, okPc, livePc, finishedPc])) <;> (try grind))
+    (constructor <;> (try (simp_all [St.ctx1, St.chLen, pOpenPc, okPc, livePc, finishedPc, postPc])) <;> (try grind))
 
 theorem basic {cfg : Cfg} {s : St} (hr : Reachable (sys cfg) s) : Basic cfg s :=
   invariant (sys := sys cfg) (basic_init cfg) (fun _ _ _ h hs => basic_step h hs) s hr
@@ -89,7 +95,7 @@ set_option maxHeartbeats 2000000 in
 theorem okComplete_step {cfg : Cfg} {s s' : St} {l : Label} (hfix : cfg.fix7 = true)
     (hb : Basic cfg s) (hc : Conserve s) (h : OkComplete cfg s) (hs : step cfg s l = some s') :
     OkComplete cfg s' := by
-  obtain ⟨h1, h2, h3, h4, h5, h6, h7, h8, h9, h10, h10', h10'', h11, h12, h13, h14, h15, h16⟩ := hb
+  obtain ⟨h1, h2, h3, h4, h5, h6, h7, h8, h9, h10, h10', h10'', h11, h12, h13, h14, h15, h16, h17, h18⟩ := hb
   have hmark : s.fin = some .marker → s.ch = [] → ∀ i, i < cfg.n → s.delivered.count i = 1 := by
     intro hf hch i hi
     have hnd : s.dropped = false := by
